@@ -142,7 +142,7 @@ theorem src_sb_len_eq_model (st : SB) (h : st.buffer.closed = false) :
   cases hr : st.buffer.real <;>
     simp [SpooledBytesIO.len, SpooledBytesIO.len.body, src_sb_tell_eq_model, src_sb_rolled_eq_model,
       src_sb_seek_eq_model, src_sb_fileno_eq_model, onBuf, FileObj.seek, FileObj.target, FileObj.fstatSize,
-      FileObj.fileno, File.seek, h, hr, hp, hl]
+      File.seek, h, hr, hp, hl]
 
 /-- `getvalue()` of an open object: the whole data; the position is restored -/
 theorem src_sb_getvalue_eq_model (st : SB) (h : st.buffer.closed = false) :
@@ -151,5 +151,207 @@ theorem src_sb_getvalue_eq_model (st : SB) (h : st.buffer.closed = false) :
   simp [SpooledBytesIO.getvalue, SpooledBytesIO.getvalue.body, checkClosed_open, src_sb_tell_eq_model,
     src_sb_seek_eq_model, src_sb_read_eq_model, onBuf, FileObj.seek, FileObj.target, FileObj.read, File.seek,
     File.readAll, File.rest, h, hp]
+
+/-- data of a file cut at `n` (`truncate()` at position `n`): a temporary file past its end is extended with zeros -/
+def truncData (real : Bool) (d : List UInt8) (n : Nat) : List UInt8 :=
+  if real then d.take n ++ List.replicate (n - d.length) default else d.take n
+
+/-- `truncate(size)` of an open object (no operation of the hand model corresponds; stated against the abstract file):
+    `truncate()` cuts at the position and returns it; `truncate(n)`, `n ≥ 0`, cuts at `n`, returns None and leaves the
+    position at `min pos n`; a negative size raises OSError -/
+theorem src_sb_truncate_eq_model (st : SB) (size : Option Int) (h : st.buffer.closed = false) :
+    SpooledBytesIO.truncate st size =
+      (match size with
+       | none => (.ok (some (st.buffer.f.pos : Int)),
+                  { st with buffer := { st.buffer with
+                      f := ⟨truncData st.buffer.real st.buffer.f.data st.buffer.f.pos, st.buffer.f.pos⟩, stale := false } })
+       | some n =>
+         if n < 0 then (.error .Other, st)
+         else (.ok none,
+               { st with buffer := { st.buffer with
+                   f := ⟨truncData st.buffer.real st.buffer.f.data n.toNat, min st.buffer.f.pos n.toNat⟩,
+                   stale := false } })) := by
+  have hp : ¬ ((st.buffer.f.pos : Int) < 0) := by omega
+  rcases size with _ | n
+  · cases hr : st.buffer.real <;>
+      simp [SpooledBytesIO.truncate, SpooledBytesIO.truncate.body, checkClosed_open _ _ h, FileObj.truncate, truncData, h, hr]
+  · by_cases hn : n < 0
+    · simp [SpooledBytesIO.truncate, SpooledBytesIO.truncate.body, checkClosed_open _ _ h, hn, PyRt.unwrap]
+    · by_cases hlt : (st.buffer.f.pos : Int) < n <;> cases hr : st.buffer.real <;>
+        simp [SpooledBytesIO.truncate, SpooledBytesIO.truncate.body, checkClosed_open _ _ h, src_sb_tell_eq_model,
+          src_sb_seek_eq_model, onBuf, FileObj.seek, FileObj.target, FileObj.truncate, File.seek, truncData,
+          h, hn, hp, hlt, hr, PyRt.unwrap] <;> omega
+
+/-! ## 2. SpooledBytesIO against the hand model `SBytes` -/
+
+/-- the object state `st` stands for the model state `s`: an open buffer with the model's content and position, a
+    temporary file iff the model has rolled over.  (`stale` is free: the model has no such notion.) -/
+structure RelB (st : SB) (s : SBytes) : Prop where
+  f : st.buffer.f = s.buf
+  opened : st.buffer.closed = false
+  real : st.buffer.real = s.rolled
+  max : st.max_size = (s.maxSize : Int)
+
+/-- what `SpooledBytesIO(max_size=m)` is before the first call (`__init__` stores `max_size` / `dir`; the `buffer`
+    property creates the empty BytesIO on first use — the normal form the translator accepts) -/
+def srcInitB (m : Nat) : SB := { buffer := FileObj.newMem, max_size := m, dir := () }
+
+theorem RelB_init (m : Nat) : RelB (srcInitB m) (SBytes.init m) := ⟨rfl, rfl, rfl, rfl⟩
+
+theorem File_write_nil (f : File UInt8) (h : InRange f) : f.write [] = f := by
+  unfold InRange at h
+  cases f with
+  | mk d p => simp only [File.write, List.append_nil, List.length_nil, Nat.add_zero] at *
+              rw [Nat.sub_eq_zero_of_le h]; simp
+
+/-- a public call of the model's history language on the GENERATED definitions -/
+def outOf {ρ : Type} (g : ρ → Out Byte) (r : Except PyExc ρ × SB) : Except PyExc (Out Byte) × SB :=
+  (match r.1 with | .ok v => .ok (g v) | .error e => .error e, r.2)
+
+def srcStepB (st : SB) : Op Byte → Except PyExc (Out Byte) × SB
+  | .write b => outOf (fun _ => .unit) (SpooledBytesIO.write st b)
+  | .read n => outOf .data (SpooledBytesIO.read st n)
+  | .readAll => outOf .data (SpooledBytesIO.read st (-1))
+  | .readline => outOf .data (SpooledBytesIO.readline st none)
+  | .readlineN n => outOf .data (SpooledBytesIO.readline st (some n))
+  | .seek p => outOf (fun v => .num v.toNat) (SpooledBytesIO.seek st p 0)
+  | .seekCur n => outOf (fun v => .num v.toNat) (SpooledBytesIO.seek st n 1)
+  | .seekEnd n => outOf (fun v => .num v.toNat) (SpooledBytesIO.seek st (-(n : Int)) 2)
+  | .tell => outOf (fun v => .num v.toNat) (SpooledBytesIO.tell st)
+  | .getvalue => outOf .data (SpooledBytesIO.getvalue st)
+  | .len => outOf (fun v => .num v.toNat) (SpooledBytesIO.len st)
+  | .rollover => outOf (fun _ => .unit) (SpooledBytesIO.rollover st)
+  | _ => (.error .Other, st)
+
+/-- the calls whose methods are translated (not: `readlines`, iteration, `writelines`) -/
+def tiedB : Op Byte → Bool
+  | .readlines => false
+  | .next => false
+  | .list => false
+  | .drain => false
+  | .writelines _ => false
+  | _ => true
+
+theorem rolledOver_rel (st : SB) (s : SBytes) (h : RelB st s) (hr : s.rolled = false) (hin : InRange s.buf) :
+    RelB (rolledOver st) s.rollover := by
+  refine ⟨?_, rfl, ?_, ?_⟩
+  · simp [rolledOver, SBytes.rollover, hr, h.f]
+  · simp [rolledOver, SBytes.rollover, hr]
+  · simp [rolledOver, SBytes.rollover, hr, h.max]
+
+/-- the model state `write` writes into -/
+def SBytes.target (s : SBytes) (b : List Byte) : SBytes :=
+  if s.buf.pos + b.length ≥ s.maxSize then s.rollover else s
+
+theorem SBytes.write_target (s : SBytes) (b : List Byte) :
+    s.write b = { s.target b with buf := (s.target b).buf.write b } := by
+  unfold SBytes.write SBytes.target; split <;> rfl
+
+theorem SBytes.rollover_inRange (s : SBytes) (h : InRange s.buf) : InRange s.rollover.buf := by
+  rw [SBytes.rollover_buf]; exact h
+
+theorem writeTarget_rel (st : SB) (s : SBytes) (b : List Byte) (h : RelB st s) (hin : InRange s.buf) :
+    RelB (writeTarget st b) (s.target b) := by
+  have hpos : (st.buffer.f.pos : Int) = s.buf.pos := by rw [h.f]
+  unfold writeTarget SBytes.target
+  by_cases hge : s.buf.pos + b.length ≥ s.maxSize
+  · have hgeI : (st.buffer.f.pos : Int) + b.length ≥ st.max_size := by rw [hpos, h.max]; omega
+    rw [if_pos hge]
+    cases hr : s.rolled
+    · rw [if_pos ⟨hgeI, by rw [h.real, hr]⟩]; exact rolledOver_rel st s h hr hin
+    · rw [if_neg (by rw [h.real, hr]; simp)]; simpa [SBytes.rollover, hr] using h
+  · have hgeI : ¬ ((st.buffer.f.pos : Int) + b.length ≥ st.max_size) := by rw [hpos, h.max]; omega
+    rw [if_neg hge, if_neg (fun hh => hgeI hh.1)]; exact h
+
+theorem write_rel (st : SB) (s : SBytes) (b : List Byte) (h : RelB st s) (hin : InRange s.buf) :
+    RelB (onBuf st (FileObj.write st.buffer b)).2 { s with buf := s.buf.write b } := by
+  obtain ⟨hf, hc, hr, hm⟩ := h
+  by_cases hb : b = []
+  · subst hb
+    refine ⟨?_, ?_, ?_, ?_⟩ <;> simp [onBuf, FileObj.write, hc, hf, hr, hm, File_write_nil _ hin]
+  · have hbe : b.isEmpty = false := by cases b <;> simp_all
+    refine ⟨?_, ?_, ?_, ?_⟩ <;> simp [onBuf, FileObj.write, hc, hf, hr, hm, hbe]
+
+/-- ONE STEP: a translated call on an object standing for `s` returns what the model returns and ends in an object
+    standing for the model's next state — for every state whose position is inside the data and every call in the
+    statement's domain (`okB`) -/
+theorem src_sb_step_eq_model (st : SB) (s : SBytes) (op : Op Byte) (h : RelB st s) (ht : tiedB op = true)
+    (hin : InRange s.buf) (hok : okB s.buf op = true) :
+    (srcStepB st op).1 = .ok (s.step op).1 ∧ RelB (srcStepB st op).2 (s.step op).2 := by
+  by_cases hw : ∃ b, op = .write b
+  · obtain ⟨b, rfl⟩ := hw
+    have ht := writeTarget_rel st s b h hin
+    have hti : InRange (s.target b).buf := by
+      unfold SBytes.target; split
+      · exact SBytes.rollover_inRange s hin
+      · exact hin
+    have hw := write_rel _ _ b ht hti
+    refine ⟨by simp [srcStepB, outOf, src_sb_write_eq_model _ _ h.opened, SBytes.step], ?_⟩
+    simpa [srcStepB, outOf, src_sb_write_eq_model _ _ h.opened, SBytes.step, SBytes.write_target] using hw
+  obtain ⟨hf, hc, hr, hm⟩ := h
+  rcases st with ⟨⟨⟨d, p⟩, cl, rl, sl⟩, ms, dir⟩
+  rcases s with ⟨buf, rolled, maxSize⟩
+  simp only at hf hc hr hm hin
+  subst hf hc hr hm
+  unfold InRange at hin
+  simp only at hin
+  have hp : ¬ ((p : Int) < 0) := by omega
+  cases op with
+  | write b => exact absurd ⟨b, rfl⟩ hw
+  | read n =>
+    have hn : ¬ ((n : Int) < 0) := by omega
+    refine ⟨by simp [srcStepB, outOf, src_sb_read_eq_model, onBuf, FileObj.read, SBytes.step, hn], ?_⟩
+    constructor <;> simp [srcStepB, outOf, src_sb_read_eq_model, onBuf, FileObj.read, SBytes.step, hn]
+  | readAll =>
+    refine ⟨by simp [srcStepB, outOf, src_sb_read_eq_model, onBuf, FileObj.read, SBytes.step], ?_⟩
+    constructor <;> simp [srcStepB, outOf, src_sb_read_eq_model, onBuf, FileObj.read, SBytes.step]
+  | readline =>
+    refine ⟨by simp [srcStepB, outOf, src_sb_readline_eq_model, onBuf, FileObj.readline, rlLimit, SBytes.step,
+      SBytes.readline, PyRtC18.isNL], ?_⟩
+    constructor <;> simp [srcStepB, outOf, src_sb_readline_eq_model, onBuf, FileObj.readline, rlLimit, SBytes.step,
+      SBytes.readline, PyRtC18.isNL]
+  | readlineN n =>
+    rcases n with _ | n
+    · simp [okB] at hok
+    · have h0 : ¬ ((n : Int) + 1 = 0) := by omega
+      have h1 : ¬ ((n : Int) + 1 < 0) := by omega
+      have h2 : ((n : Int) + 1).toNat = n + 1 := by omega
+      refine ⟨by simp [srcStepB, outOf, src_sb_readline_eq_model, onBuf, FileObj.readline, rlLimit, SBytes.step,
+        SBytes.readline, PyRtC18.isNL, h0, h1, h2], ?_⟩
+      constructor <;> simp [srcStepB, outOf, src_sb_readline_eq_model, onBuf, FileObj.readline, rlLimit, SBytes.step,
+        SBytes.readline, PyRtC18.isNL, h0, h1, h2]
+  | seek q =>
+    have hq : ¬ ((q : Int) < 0) := by omega
+    refine ⟨by simp [srcStepB, outOf, src_sb_seek_eq_model, onBuf, FileObj.seek, FileObj.target, SBytes.step, hq], ?_⟩
+    constructor <;> simp [srcStepB, outOf, src_sb_seek_eq_model, onBuf, FileObj.seek, FileObj.target, SBytes.step, hq]
+  | seekCur n =>
+    have hq : ¬ ((p : Int) + (n : Int) < 0) := by omega
+    have e : ((p : Int) + (n : Int)).toNat = p + n := by omega
+    refine ⟨by simp [srcStepB, outOf, src_sb_seek_eq_model, onBuf, FileObj.seek, FileObj.target, SBytes.step, hq, e], ?_⟩
+    constructor <;> simp [srcStepB, outOf, src_sb_seek_eq_model, onBuf, FileObj.seek, FileObj.target, SBytes.step, hq, e]
+  | seekEnd n =>
+    simp only [okB, decide_eq_true_eq] at hok
+    have hq : ¬ ((d.length : Int) + -(n : Int) < 0) := by omega
+    have e : ((d.length : Int) + -(n : Int)).toNat = d.length - n := by omega
+    refine ⟨by simp [srcStepB, outOf, src_sb_seek_eq_model, onBuf, FileObj.seek, FileObj.target, SBytes.step, hq, e], ?_⟩
+    constructor <;> simp [srcStepB, outOf, src_sb_seek_eq_model, onBuf, FileObj.seek, FileObj.target, SBytes.step, hq, e]
+  | tell =>
+    refine ⟨by simp [srcStepB, outOf, src_sb_tell_eq_model, SBytes.step], ?_⟩
+    constructor <;> simp [srcStepB, outOf, src_sb_tell_eq_model, SBytes.step]
+  | getvalue =>
+    refine ⟨by simp [srcStepB, outOf, src_sb_getvalue_eq_model, SBytes.step, SBytes.getvalue, File.seek, File.readAll, File.rest], ?_⟩
+    constructor <;> simp [srcStepB, outOf, src_sb_getvalue_eq_model, SBytes.step, SBytes.getvalue, File.seek, File.readAll]
+  | len =>
+    refine ⟨by cases rl <;> simp [srcStepB, outOf, src_sb_len_eq_model, SBytes.step, SBytes.len, File.seek, File.seekEnd], ?_⟩
+    cases rl <;> constructor <;> simp [srcStepB, outOf, src_sb_len_eq_model, SBytes.step, SBytes.len, File.seek, File.seekEnd]
+  | rollover =>
+    refine ⟨by cases rl <;> simp [srcStepB, outOf, src_sb_rollover_eq_model, SBytes.step], ?_⟩
+    cases rl <;> constructor <;>
+      simp [srcStepB, outOf, src_sb_rollover_eq_model, SBytes.step, SBytes.rollover, rolledOver]
+  | readlines => simp [tiedB] at ht
+  | next => simp [tiedB] at ht
+  | list => simp [tiedB] at ht
+  | drain => simp [tiedB] at ht
+  | writelines ss => simp [tiedB] at ht
 
 end C18
